@@ -2127,6 +2127,27 @@ class Interp:
             r = self._fold_isinstance(args[0], args[1], frame)
             if r is not None:
                 return const(r)
+        if name in ("itertools.filterfalse", "builtins.filter") and \
+                len(args) == 2 and not kwargs:
+            # filter(F, X) / filterfalse(F, X) are the generator expressions
+            # (x for x in X if [not] F(x)); operator.methodcaller("m", *a)
+            # applied to x is x.m(*a)
+            fu = self.unname(args[0])
+            lid = self.new_loop(node)
+            el = T("elem", args[1], lid)
+            test = None
+            if fu.op == "call" and tm.callee_name(fu) == \
+                    "operator.methodcaller" and fu.args[1] and \
+                    tm.is_const(fu.args[1][0]) and not fu.args[2]:
+                test = tm.call(tm.attr(el, tm.const_val(fu.args[1][0])),
+                               tuple(fu.args[1][1:]), ())
+            elif fu.op in ("closure", "func"):
+                test = self.do_call(fu, [el], [], node, frame, live)
+            if test is not None:
+                cond = self.as_cond(test)
+                if name.endswith("filterfalse"):
+                    cond = tm.mk_not(cond)
+                return T("comp", "gen", el, ((args[1], lid),), (cond,))
         if name == "functools.reduce" and len(args) in (2, 3) and not kwargs:
             # a fold over a completely known sequence: unrolled
             its = literal_items(args[1], self.unname)
